@@ -162,36 +162,27 @@ def dictLoop (elem : Elem) :
                 | .null => dictLoop elem f cur' s k2 names map
                 | v => dictLoop elem f cur' s k2 (key.val :: names) (dictInsert key.val v map)
 
+/-- wrap a token parser's located result as the dispatcher's `PDFObjT` result (`x.unwrap()`, `?`) -/
+def liftTok {α : Type} (f : α → Obj) (cur : Nat) : Res (Located α) × Nat → (Res Obj × Nat) × Nat
+  | (.ok v, j) => ((.ok (f v.val), j), cur)
+  | (.err k, j) => ((.err k, j), cur)
+  | (.panic p, j) => ((.panic p, j), cur)
+
 /-- `PDFObjP::parse_internal`, given the parser for nested objects -/
 def parseInternal (elem : Elem) (cur : Nat) (s : Bytes) (i : Nat) : (Res Obj × Nat) × Nat :=
   match peek s i with
   | none => ((.err .eob, i), cur)
   | some c =>
     if c == 116 || c == 102 then
-      match boolean s i with
-      | (.ok b, j) => ((.ok (.bool b.val), j), cur)
-      | (.err k, j) => ((.err k, j), cur)
-      | (.panic p, j) => ((.panic p, j), cur)
+      liftTok (fun b => Obj.bool b) cur (boolean s i)
     else if c == 110 then
-      match null s i with
-      | (.ok _, j) => ((.ok .null, j), cur)
-      | (.err k, j) => ((.err k, j), cur)
-      | (.panic p, j) => ((.panic p, j), cur)
+      liftTok (fun _ => Obj.null) cur (null s i)
     else if c == 40 then
-      match rawLitString s i with
-      | (.ok v, j) => ((.ok (.str v.val), j), cur)
-      | (.err k, j) => ((.err k, j), cur)
-      | (.panic p, j) => ((.panic p, j), cur)
+      liftTok (fun v => Obj.str v) cur (rawLitString s i)
     else if c == 37 then
-      match comment s i with
-      | (.ok v, j) => ((.ok (.comment v.val), j), cur)
-      | (.err k, j) => ((.err k, j), cur)
-      | (.panic p, j) => ((.panic p, j), cur)
+      liftTok (fun v => Obj.comment v) cur (comment s i)
     else if c == 47 then
-      match nameP s i with
-      | (.ok v, j) => ((.ok (.name v.val), j), cur)
-      | (.err k, j) => ((.err k, j), cur)
-      | (.panic p, j) => ((.panic p, j), cur)
+      liftTok (fun v => Obj.name v) cur (nameP s i)
     else if c == 91 then
       -- ArrayP::parse: `exact("[")` succeeds here
       match arrayLoop elem (s.length + 1 - i) cur s (i + 1) [] with
@@ -205,10 +196,7 @@ def parseInternal (elem : Elem) (cur : Nat) (s : Bytes) (i : Nat) : (Res Obj × 
         | ((.err k, j), cur') => ((.err k, j), cur')
         | ((.panic p, j), cur') => ((.panic p, j), cur')
       else
-        match hexString s i with
-        | (.ok v, j) => ((.ok (.str v.val), j), cur)
-        | (.err k, j) => ((.err k, j), cur)
-        | (.panic p, j) => ((.panic p, j), cur)
+        liftTok (fun v => Obj.str v) cur (hexString s i)
     else if !(isDigit c || c == 45 || c == 43 || c == 46) then ((.err .guard, i), cur)
     else (numberOrRef s i, cur)
 
